@@ -270,6 +270,16 @@ func monitorsC16(out *Outcome, c *Controller, w *World, base int) {
 			out.viol("C16", "panic:"+h.Kind, "a call panicked", h.Res.Panic)
 		}
 	}
+	// (1a) a session helper never leaves its transaction behind
+	for _, h := range out.History {
+		if h.Kind == "wtx" && h.Res.Leak {
+			f := "ok"
+			if h.Actor-1 < len(sc.Actors) && h.Op < len(sc.Actors[h.Actor-1]) && sc.Actors[h.Actor-1][h.Op].Fault != "" {
+				f = sc.Actors[h.Actor-1][h.Op].Fault
+			}
+			out.viol("C16", "wedged:wtx-"+f, "WithTransaction was left but the session still holds its write transaction (the writer slot stays taken)", fmt.Sprintf("actor %d: %s", h.Actor, h.Res.Cls))
+		}
+	}
 	// (1b) a plain CRUD call never fails with a transaction-bookkeeping error: that would mean another
 	// client's call (or the engine) took its transaction away
 	for _, h := range out.History {
